@@ -381,6 +381,9 @@ func tryReplay(r *Report, o *Obligation) *replayResult {
 		return &replayResult{Outcome: "NO-MODEL", Reason: "the solver gave no model (" + o.Status + ")"}
 	}
 	u := o.unit
+	if u == nil {
+		return &replayResult{Outcome: "UNSUPPORTED", Reason: "theory lemma"}
+	}
 	fn := u.root
 	if o.In != u.rootKey && !safetyKinds[o.Kind] {
 		return &replayResult{Outcome: "UNSUPPORTED", Reason: "obligation inside an inlined callee"}
